@@ -2,8 +2,11 @@ package props
 
 import (
 	"bytes"
+	"encoding/binary"
 	"fmt"
+	"hash/fnv"
 	"sort"
+	"strconv"
 	"strings"
 	"testing"
 
@@ -78,6 +81,7 @@ func snapFrame(qf qframe.QFrame) string {
 }
 
 func snapGrouper(g qframe.Grouper) string {
+	agg := g.Aggregate() // before QFrames: neither call may change what the other reports
 	fs, err := g.QFrames()
 	if err != nil {
 		return fmt.Sprintf("grouper err=%v / %v", g.Err, err)
@@ -86,8 +90,11 @@ func snapGrouper(g qframe.Grouper) string {
 	for i, f := range fs {
 		ss[i] = snapFrame(f)
 	}
+	// the order of the groups is not specified, but it belongs to the Grouper value: the same Grouper lists its groups
+	// in the same order every time (QFrames and Aggregate agree with their own earlier answers)
+	order := quickOrder(fs)
 	sort.Strings(ss)
-	return fmt.Sprintf("grouper err=%v groups=%d\n%s", g.Err, len(fs), strings.Join(ss, "--\n"))
+	return fmt.Sprintf("grouper err=%v groups=%d order=%s aggregate=%d/%v\n%s", g.Err, len(fs), order, agg.Len(), quickSnapOrErr(agg), strings.Join(ss, "--\n"))
 }
 
 func snapView(v interface{}) string {
@@ -646,4 +653,22 @@ func instrNames(ins []qframe.Instruction) []string {
 		r[i] = x.DstCol + "<-" + x.SrcCol1 + "," + x.SrcCol2
 	}
 	return r
+}
+
+// quickOrder fingerprints the sequence of group frames.
+func quickOrder(fs []qframe.QFrame) string {
+	h := fnv.New64a()
+	for _, f := range fs {
+		var b [8]byte
+		binary.LittleEndian.PutUint64(b[:], quickSnap(f))
+		_, _ = h.Write(b[:])
+	}
+	return strconv.FormatUint(h.Sum64(), 16)
+}
+
+func quickSnapOrErr(qf qframe.QFrame) string {
+	if qf.Err != nil {
+		return "err"
+	}
+	return strconv.FormatUint(quickSnap(qf), 16)
 }
